@@ -81,6 +81,9 @@ func registerModels(e *Engine) {
 	registerMisc(e)
 	registerMore(e)
 	registerBig(e)
+	registerBytes(e)
+	registerTime(e)
+	registerStrconv(e)
 }
 
 // ---------- verifrt intrinsics ----------
@@ -113,6 +116,25 @@ func registerRT(e *Engine) {
 		ex.recordDraw(Draw{Name: name, Kind: "int", Term: t, Width: 64})
 		ex.addPC(ex.ctx.And(ex.ctx.Sle(lo, t), ex.ctx.Sle(t, hi)))
 		return t, nil
+	})
+	// Pick: like IntRange, but the engine case-splits on every value (concrete on each path).
+	e.reg(rtPkg+".Pick", func(ex *Exec, fn *ssa.Function, args []Value) (Value, *PanicV) {
+		c := ex.ctx
+		name := ex.argString(args[0])
+		lo, hi := argTerm(ex, args[1]), argTerm(ex, args[2])
+		if !lo.isConst || !hi.isConst {
+			ex.unsupported("verifrt.Pick with symbolic bounds")
+		}
+		t := c.Fresh("d_"+name, BV(64))
+		ex.recordDraw(Draw{Name: name, Kind: "int", Term: t, Width: 64})
+		ex.addPC(c.And(c.Sle(lo, t), c.Sle(t, hi)))
+		n := int(hi.Int()-lo.Int()) + 1
+		if n <= 0 {
+			panic(pathEnd{kind: "infeasible"})
+		}
+		k := c64(c, uint64(lo.Int()+int64(ex.chooseN(n))))
+		ex.addPC(c.Eq(t, k))
+		return k, nil
 	})
 	bytesDraw := func(ex *Exec, name string, n, cp *Term) Value {
 		node := ex.baseNode("b_" + name)
